@@ -360,6 +360,241 @@ theorem foldl_stepBackward_consecutive [Add α] [Sub α] [Mul α] [Div α] [NatC
     · rw [if_neg e]
       exact ih' u (by omega) h2
 
+/-! ### several variants -/
+
+theorem Ser.firstSomeFrom_isSome (v : Int → Option α) (lo : Int) (n : Nat) (a : Int)
+    (h : Ser.firstSomeFrom v lo n = some a) : (v a).isSome = true := by
+  induction n generalizing lo with
+  | zero => simp [Ser.firstSomeFrom] at h
+  | succ n ih =>
+    unfold Ser.firstSomeFrom at h
+    by_cases hv : (v lo).isSome = true
+    · simp [hv] at h; subst h; exact hv
+    · simp [hv] at h; exact ih (lo + 1) h
+
+theorem Ser.lastSomeFrom_isSome (v : Int → Option α) (hi : Int) (n : Nat) (b : Int)
+    (h : Ser.lastSomeFrom v hi n = some b) : (v b).isSome = true := by
+  induction n generalizing hi with
+  | zero => simp [Ser.lastSomeFrom] at h
+  | succ n ih =>
+    unfold Ser.lastSomeFrom at h
+    by_cases hv : (v hi).isSome = true
+    · simp [hv] at h; subst h; exact hv
+    · simp [hv] at h; exact ih (hi - 1) h
+
+namespace MSer
+
+/-- a row is unmarked exactly when it is missing in every variant -/
+theorem rowMark_eq_none (m : MSer α) (t : Int) : m.rowMark t = none ↔ ∀ j, j < m.nv → m.val t j = none := by
+  unfold rowMark
+  constructor
+  · intro h j hj
+    by_cases hany : ((List.range m.nv).any fun j => (m.val t j).isSome) = true
+    · simp [hany] at h
+    · rw [Bool.not_eq_true, List.any_eq_false] at hany
+      have := hany j (List.mem_range.mpr hj)
+      cases hv : m.val t j with
+      | none => rfl
+      | some x => simp [hv] at this
+  · intro h
+    have : ((List.range m.nv).any fun j => (m.val t j).isSome) = false := by
+      rw [List.any_eq_false]
+      intro j hj
+      simp [h j (List.mem_range.mp hj)]
+    simp [this]
+
+theorem rowMark_isSome (m : MSer α) (t : Int) (h : (m.rowMark t).isSome = true) :
+    ∃ j, j < m.nv ∧ (m.val t j).isSome = true := by
+  unfold rowMark at h
+  by_cases hany : ((List.range m.nv).any fun j => (m.val t j).isSome) = true
+  · rw [List.any_eq_true] at hany
+    obtain ⟨j, hj, hv⟩ := hany
+    exact ⟨j, List.mem_range.mp hj, hv⟩
+  · simp [hany] at h
+
+theorem trim_eq (m : MSer α) : m.trim =
+    match Ser.firstSomeFrom m.rowMark m.lo (m.hi + 1 - m.lo).toNat with
+    | none => { m with lo := 0, hi := -1 }
+    | some a =>
+      match Ser.lastSomeFrom m.rowMark m.hi (m.hi + 1 - m.lo).toNat with
+      | none => { m with lo := 0, hi := -1 }
+      | some b => { m with lo := a, hi := b } := rfl
+
+@[simp] theorem nv_trim (m : MSer α) : m.trim.nv = m.nv := by
+  rw [trim_eq]; split
+  · rfl
+  · split <;> rfl
+
+@[simp] theorem freq_trim (m : MSer α) : m.trim.freq = m.freq := by
+  rw [trim_eq]; split
+  · rfl
+  · split <;> rfl
+
+/-- trimming is invisible through `get`, in every variant -/
+@[simp] theorem get_trim (m : MSer α) (t : Int) (j : Nat) : m.trim.get t j = m.get t j := by
+  rw [trim_eq]
+  generalize hn : (m.hi + 1 - m.lo).toNat = n
+  have hempty : ¬ ((0 : Int) ≤ t ∧ t ≤ -1 ∧ j < m.nv) := by omega
+  cases Nat.lt_or_ge j m.nv with
+  | inr hge =>
+    have hj : ¬ j < m.nv := by omega
+    cases hf : Ser.firstSomeFrom m.rowMark m.lo n with
+    | none => simp [get, hj]
+    | some a =>
+      cases hl : Ser.lastSomeFrom m.rowMark m.hi n with
+      | none => simp [get, hj]
+      | some b => simp [get, hj]
+  | inl hj =>
+    cases hf : Ser.firstSomeFrom m.rowMark m.lo n with
+    | none =>
+      have h0 := Ser.firstSomeFrom_none m.rowMark m.lo n hf
+      simp only [get, hempty, if_false]
+      split
+      · rename_i h
+        exact ((rowMark_eq_none m t).mp (h0 t h.1 (by omega)) j hj).symm
+      · rfl
+    | some a =>
+      obtain ⟨a1, a2, a3⟩ := Ser.firstSomeFrom_some m.rowMark m.lo n a hf
+      cases hl : Ser.lastSomeFrom m.rowMark m.hi n with
+      | none =>
+        have h0 := Ser.lastSomeFrom_none m.rowMark m.hi n hl
+        simp only [get, hempty, if_false]
+        split
+        · rename_i h
+          exact ((rowMark_eq_none m t).mp (h0 t (by omega) h.2.1) j hj).symm
+        · rfl
+      | some b =>
+        obtain ⟨b1, b2, b3⟩ := Ser.lastSomeFrom_some m.rowMark m.hi n b hl
+        simp only [get]
+        by_cases h1 : a ≤ t ∧ t ≤ b ∧ j < m.nv
+        · have h2 : m.lo ≤ t ∧ t ≤ m.hi ∧ j < m.nv := ⟨by omega, by omega, hj⟩
+          simp [h1, h2]
+        · simp only [h1, if_false]
+          split
+          · rename_i h
+            by_cases h3 : t < a
+            · exact ((rowMark_eq_none m t).mp (a3 t h.1 h3) j hj).symm
+            · exact ((rowMark_eq_none m t).mp (b3 t (by omega) h.2.1) j hj).symm
+          · rfl
+
+/-- the non-empty series of a list lie inside the union of rows -/
+theorem rowsUnion_cover (outs : List (Ser α)) (o : Ser α) (ho : o ∈ outs) (hne : o.isEmpty = false) :
+    ∃ a b, rowsUnion outs = some (a, b) ∧ a ≤ o.lo ∧ o.hi ≤ b := by
+  induction outs with
+  | nil => simp at ho
+  | cons x xs ih =>
+    unfold rowsUnion
+    rcases List.mem_cons.mp ho with e | e
+    · subst e
+      cases hr : rowsUnion xs with
+      | none => exact ⟨o.lo, o.hi, by simp [hne], Int.le_refl _, Int.le_refl _⟩
+      | some ab =>
+        obtain ⟨a, b⟩ := ab
+        exact ⟨min a o.lo, max b o.hi, by simp [hne], by omega, by omega⟩
+    · obtain ⟨a, b, hab, h1, h2⟩ := ih e
+      rw [hab]
+      by_cases hx : x.isEmpty = true
+      · exact ⟨a, b, by simp [hx], h1, h2⟩
+      · exact ⟨min a x.lo, max b x.hi, by simp [hx], by omega, by omega⟩
+
+theorem rowsUnion_none (outs : List (Ser α)) (h : rowsUnion outs = none) (o : Ser α) (ho : o ∈ outs) :
+    o.isEmpty = true := by
+  cases he : o.isEmpty with
+  | true => rfl
+  | false =>
+    obtain ⟨a, b, hab, _⟩ := rowsUnion_cover outs o ho he
+    rw [h] at hab; cases hab
+
+@[simp] theorem nv_ofSers (f : Freq) (outs : List (Ser α)) : (ofSers f outs).nv = outs.length := by
+  unfold ofSers; split <;> simp
+
+/-- variant `j` of `ofSers` is `outs[j]`, cell by cell -/
+theorem get_ofSers (f : Freq) (outs : List (Ser α)) (t : Int) (j : Nat) :
+    (ofSers f outs).get t j = (outs[j]?).bind (fun o => o.get t) := by
+  unfold ofSers
+  cases hr : rowsUnion outs with
+  | none =>
+    simp only [get]
+    have : ¬ ((0 : Int) ≤ t ∧ t ≤ -1 ∧ j < outs.length) := by omega
+    simp only [this, if_false]
+    cases ho : outs[j]? with
+    | none => rfl
+    | some o =>
+      have hmem : o ∈ outs := List.mem_of_getElem? ho
+      simp [Ser.get_of_isEmpty o (rowsUnion_none outs hr o hmem)]
+  | some ab =>
+    obtain ⟨a, b⟩ := ab
+    simp only
+    rw [get_trim]
+    simp only [get]
+    cases ho : outs[j]? with
+    | none =>
+      have : ¬ j < outs.length := by
+        intro hlt
+        have := List.getElem?_eq_getElem hlt
+        rw [ho] at this; cases this
+      simp [this]
+    | some o =>
+      have hmem : o ∈ outs := List.mem_of_getElem? ho
+      have hlt : j < outs.length := by
+        rcases Nat.lt_or_ge j outs.length with h | h
+        · exact h
+        · rw [List.getElem?_eq_none h] at ho; cases ho
+      by_cases hin : a ≤ t ∧ t ≤ b ∧ j < outs.length
+      · rw [if_pos hin]
+      · simp only [hin, if_false, Option.bind_some]
+        cases he : o.isEmpty with
+        | true => exact (Ser.get_of_isEmpty o he t).symm
+        | false =>
+          obtain ⟨a', b', hab, h1, h2⟩ := rowsUnion_cover outs o hmem he
+          rw [hr] at hab
+          injection hab with hab
+          injection hab with ha hb
+          subst ha; subst hb
+          have : ¬ (o.lo ≤ t ∧ t ≤ o.hi) := by omega
+          simp [Ser.get, this]
+
+end MSer
+
+theorem mapR_ok {β γ : Type} (g : β → R γ) (l : List β) (cs : List γ) (h : mapR g l = .ok cs) :
+    cs.length = l.length ∧ ∀ i (hi : i < l.length), ∃ c, g l[i] = .ok c ∧ cs[i]? = some c := by
+  induction l generalizing cs with
+  | nil => simp [mapR, pure, Except.pure] at h; subst h; simp
+  | cons b bs ih =>
+    unfold mapR at h
+    cases hb : g b with
+    | error e => simp [hb] at h
+    | ok c =>
+      cases hr : mapR g bs with
+      | error e => simp [hb, hr] at h
+      | ok cs' =>
+        simp [hb, hr] at h
+        subst h
+        obtain ⟨h1, h2⟩ := ih cs' hr
+        refine ⟨by simp [h1], ?_⟩
+        intro i hi
+        cases i with
+        | zero => exact ⟨c, hb, rfl⟩
+        | succ i =>
+          obtain ⟨c', hc1, hc2⟩ := h2 i (by simpa using hi)
+          exact ⟨c', by simpa using hc1, by simpa using hc2⟩
+
+theorem mapR_error {β γ : Type} (g : β → R γ) (l : List β) (e : Err) (h : mapR g l = .error e) :
+    ∃ b ∈ l, g b = .error e := by
+  induction l with
+  | nil => simp [mapR, pure, Except.pure] at h
+  | cons b bs ih =>
+    unfold mapR at h
+    cases hb : g b with
+    | error e' => simp [hb] at h; subst h; exact ⟨b, by simp, hb⟩
+    | ok c =>
+      cases hr : mapR g bs with
+      | error e' =>
+        simp [hb, hr] at h; subst h
+        obtain ⟨b', hb', hg⟩ := ih hr
+        exact ⟨b', by simp [hb'], hg⟩
+      | ok cs' => simp [hb, hr] at h
+
 /-! ### `zipShift` and `minOr` -/
 
 theorem foldl_min_le (xs : List Int) (x : Int) : xs.foldl min x ≤ x ∧ ∀ y ∈ xs, xs.foldl min x ≤ y := by
@@ -500,6 +735,14 @@ theorem shift_ok_or_noPeriod (f : Freq) (hf : f ≠ .I) (t : Int) (by_ : ShiftBy
     by_cases hs : ys.2 > 1
     · left; simp [Period.shift, createTty, hys, bind, Except.bind, pure, Except.pure, hs]
     · right; simp [Period.shift, createTty, hys, bind, Except.bind, hs, throw, throwThe, MonadExceptOf.throw]
+
+/-- `soy` and `eopy` always yield a period on a calendar frequency -/
+theorem shift_soy_eopy_ok (f : Freq) (hf : f ≠ .I) (t : Int) :
+    (∃ q, Period.shift ⟨f, t⟩ .soy = .ok q) ∧ (∃ q, Period.shift ⟨f, t⟩ .eopy = .ok q) := by
+  obtain ⟨ys, hys⟩ := toYearSegment_ok f hf t
+  constructor
+  · simp [Period.shift, createSoy, hys, bind, Except.bind, pure, Except.pure]
+  · cases f <;> simp_all [Period.shift, createEopy, bind, Except.bind, pure, Except.pure]
 
 theorem zipShift_ok (f : Freq) (hf : f ≠ .I) (by_ : ShiftBy) (ts : List Int) : ∃ zs, zipShift f by_ ts = .ok zs := by
   induction ts with
